@@ -5,7 +5,9 @@ P: coq/theories/Props/C18_rt.v over RustRt2/{Model,Ops}.v: a literal transcripti
    call_ext, ClosureStorage, load_upvalue / store_upvalue, get_current_statestorage) and of the text rustgen.rs emits for array
    literals and element reads / writes; theorems: the array runtime refines the abstract contract Prims/Spec.v (the one the VM and
    the WASM host are proved to refine) for EVERY operation sequence under the extracted hypotheses rt_pre; memory load/store,
-   handle encodings, closure cells; *_differs lemmas with witnesses outside the hypotheses.
+   handle encodings, closure cells; *_differs lemmas with witnesses outside the hypotheses.  Findings C18/R1 (index +infinity) and
+   C18/R2 (`len` counted words) are REPAIRED in rustgen.rs / the template; the model follows the repaired text, the hypotheses on the
+   index and on the element size of `len` are gone, the witnesses are regression inputs (FIXED below, corpus/C18/cases.jsonl).
 PIN: every transcribed function is tied to the CURRENT text of the template / of rustgen.rs by a hash of its normalised body
    (PINS below): any edit makes the pin fail and names the function.
 C: the runtime part of the template, CUT FROM THE TEMPLATE TEXT AT RUN TIME (the whole file: its placeholders are comments) + the
@@ -179,7 +181,7 @@ PINS = {
     'MimiumProgram::load_upvalue': "d37de17464feed65",
     'MimiumProgram::store_upvalue': "03626b7dd1bf675b",
     'call_ext/append': "61c29c8d62d14d47",
-    'call_ext/len': "2da5dca00176fa6e",
+    'call_ext/len': "1128341b12a9dc2b",            # repaired (C18/R2): counts elements
     'call_ext/prepend': "4c156658f8afae5e",
     'call_ext/split_head': "06c40007ec3828ab",
     'call_ext/split_tail': "91246937dfb26446",
@@ -191,8 +193,8 @@ PINS = {
     'encode_memory': "486864106996a645",
     'parse_specialized_arity': "21eaacca654ff343",
     'rustgen/Array': "1c447bc429c4ee24",
-    'rustgen/GetArrayElem': "a40734aaeec84f4f",
-    'rustgen/SetArrayElem': "d0b56ebc1f562a75",
+    'rustgen/GetArrayElem': "7b9ecfc12b813d81",    # repaired (C18/R1): saturating cast, then clamp
+    'rustgen/SetArrayElem': "00865ab9d4218429",    # repaired (C18/R1)
     'struct ArrayObject': "6b2a20078b118f79",
     'struct ArrayStorage': "1fb5dfad9d272871",
     'struct ClosureObject': "41e5456ca5ec5634",
@@ -686,11 +688,13 @@ def gen_case(rng):
 # ------------------------------------------------------------------------------------------------
 F = fhex
 FIXED = [
-    ("C18_rt_index_infinity_differs: the index +infinity reads element 0 in generated Rust (the contract and the VM: the last)",
-     "AN:1:n%s,n%s,n%s;AG:a0:%s:1;AG:a0:%s:1;AG:a0:%s:1" % (F(10.0), F(20.0), F(30.0), PINF, NINF, NAN),
-     "h1;w%s;w%s;w%s" % (F(10.0), F(10.0), F(10.0))),
-    ("C18_rt_len_words_differs: len of an array of two-word elements counts WORDS in generated Rust (the contract and the VM: elements)",
-     "AN:2:n1,n2,n3,n4;AL:a0", "h1;w" + F(4.0)),
+    ("REPAIRED (finding C18/R1) C18_rt_index_infinity_agrees: the index +infinity reads the LAST element, -infinity and NaN the "
+     "first, like the VM and the contract (before the repair generated Rust read element 0 for +infinity)",
+     "AN:1:n%s,n%s,n%s;AG:a0:%s:1;AG:a0:%s:1;AG:a0:%s:1;AS:a0:%s:n%s:1;AG:a0:%s:1" % (F(10.0), F(20.0), F(30.0), PINF, NINF, NAN, PINF, F(7.0), F(2.0)),
+     "h1;w%s;w%s;w%s;u;w%s" % (F(30.0), F(10.0), F(10.0), F(7.0))),
+    ("REPAIRED (finding C18/R2) C18_rt_len_counts_elements: len of an array of two-word elements counts ELEMENTS, like the VM and "
+     "the contract (before the repair generated Rust counted words: 4)",
+     "AN:2:n1,n2,n3,n4;AL:a0", "h1;w" + F(2.0)),
     ("C18_rt_zero_handle_differs: the zero array handle is the empty array for len / prepend / append / split (the VM panics)",
      "AL:n0;PP:d:n7:n0;AG:a0:0:1;SH:d:n0;AG:n0:0:1", "w0;w1;w7;w0,0;Ea"),
     ("C18_rt_load_immediate_fallback (finding F22): a word that is no live pointer handle is its own value for a one-word load, "
